@@ -358,7 +358,7 @@ def parser_graph(ctx):
 
 
 STRICT_TREES = ['struct', 'lit', 'num', 'numtop', 'numobj', 'str', 'hex', 'tokens', 'nest', 'ws', 'strpad', 'keypad', 'numpad']
-SURR_TREES = ['surr', 'surrkey', 'surropen', 'surrpad', 'surrseq']
+SURR_TREES = ['surr', 'surrkey', 'surropen', 'surrpad', 'surrseq', 'surrkeys']
 
 
 def c01(ctx):
